@@ -16,8 +16,6 @@ package kvcache
 //@ spec func inseq(xs []int, s int) bool = exists k int :: 0 <= k && k < len(xs) && xs[k] == s
 //@ spec func trg(v int) int := v
 //@ spec func fid(x float32) int
-//@ spec func wcell(z int) int
-//@ spec func wseq(z int) int
 //@ spec func wfr(mn int, mx int, n int) bool = (mn == 9223372036854775807 && mx == 0) || (0 <= mn && mn <= mx && mx < n)
 
 // ---- trusted library contracts ----
@@ -388,16 +386,3 @@ package kvcache
 //@   ensures forall v int :: has(c.cellRanges, v) ==> wfr(c.cellRanges[v].min, c.cellRanges[v].max, len(c.cells))
 //@   assert-at store sequences #1 : len(stored) == 1 && stored[0] == batch.Sequences[i] && pos == batch.Positions[i]
 //@   requires forall j int :: 0 <= j && j < len(c.cells) ==> blk(batch.Sequences) != blk(c.cells[j].sequences)   -- ownership (O1): the caller's Sequences slice shares no backing array with a cell's slice (precondition of updateSlidingWindow, carried to the caller)
-// The metadata loop touches nothing else ("nothing from removed ranges ... nothing missing" for the entries already cached):
-// for an ARBITRARY cell wcell(0) outside the run being filled and an ARBITRARY sequence wseq(0) (uninterpreted constants, so the
-// facts hold for all of them), position and membership are what they were when placement started (after eviction/defrag),
-// and the range of a sequence that does not occur in the batch is what it was. ghost_w*: snapshot taken before the loop.
-//@   ghost-at after call newRange #1 : ghost_wpos := c.cells[wcell(0)].pos
-//@   ghost-at after call newRange #1 : ghost_win := ite(inseq(c.cells[wcell(0)].sequences, wseq(0)), 1, 0)
-//@   ghost-at after call newRange #1 : ghost_rhas := ite(has(c.cellRanges, wseq(0)), 1, 0)
-//@   ghost-at after call newRange #1 : ghost_rmin := c.cellRanges[wseq(0)].min
-//@   ghost-at after call newRange #1 : ghost_rmax := c.cellRanges[wseq(0)].max
-//@   loop 1 invariant 0 <= wcell(0) && wcell(0) < len(c.cells) && (wcell(0) < c.curLoc || c.curLoc + len(batch.Positions) <= wcell(0)) ==> c.cells[wcell(0)].pos == ghost_wpos && (inseq(c.cells[wcell(0)].sequences, wseq(0)) <==> ghost_win == 1)
-//@   loop 1 invariant (forall k int :: 0 <= k && k <= rangeindex ==> batch.Sequences[k] != wseq(0)) ==> (has(c.cellRanges, wseq(0)) <==> ghost_rhas == 1) && c.cellRanges[wseq(0)].min == ghost_rmin && c.cellRanges[wseq(0)].max == ghost_rmax
-//@   assert-at call buildMask #1 : !reserve && 0 <= wcell(0) && wcell(0) < len(c.cells) && (wcell(0) < c.curLoc || c.curLoc + len(batch.Positions) <= wcell(0)) ==> c.cells[wcell(0)].pos == ghost_wpos && (inseq(c.cells[wcell(0)].sequences, wseq(0)) <==> ghost_win == 1)
-//@   assert-at call buildMask #1 : !reserve && (forall k int :: 0 <= k && k < len(batch.Positions) ==> batch.Sequences[k] != wseq(0)) ==> (has(c.cellRanges, wseq(0)) <==> ghost_rhas == 1) && c.cellRanges[wseq(0)].min == ghost_rmin && c.cellRanges[wseq(0)].max == ghost_rmax
